@@ -5,7 +5,8 @@
       (CastMarshaller[int|float], ToStringMarshaller, ToISOTimeMarshaller, EnumMarshaller, NoOpMarshaller[bytes]),
       NoneTypeUnmarshaller, and the table  leaf kind -> (unmarshal routine of Scalars.v, marshal routine);
    2. shapes, ranges and the additional stated laws (FoldLaws, LoadLaws);
-   3. for an ARBITRARY atom coding [enc : val -> nat], [dec : nat -> option val] (law: dec (enc v) = Some v), an
+   3. for an ARBITRARY coding (record [coding]: enc : val -> nat, dec : nat -> option val with dec (enc v) = Some v;
+      the text of the field names, whose strs are PKey in the core model), an
       arbitrary numbering [kind_of] of leaf ids, the interpreter as seen from each leaf type [rts s] (Path(s), E(v) are
       "for the class at hand" in Temporal.Runtime) and an arbitrary core runtime [base] for everything that is not a
       leaf: the core [runtime] whose leaf_u / leaf_m / none_u run the scalar model on the decoded atom and re-encode;
@@ -18,6 +19,7 @@ Require Import TL.Model.Duration.
 Require Import TL.Model.Temporal.
 Require Import TL.Model.Scalars.
 Require TL.Model.Core.
+Require TL.Model.CoreC01.
 Local Open Scope nat_scope.
 
 (* the scalar leaf types of typelib that the C04 model covers (bool and Pattern are not in [val]) *)
@@ -163,43 +165,66 @@ Record LoadLaws (rt : Runtime) : Prop := {
 Definition exn_map (e : exn) : Core.exn :=
   match e with EValue => Core.EValue | EType => Core.EType | EOverflow => Core.EArith | EOther => Core.EOther end.
 
+(* the coding of scalar values as core values: [enc x] is the atom standing for x, [dec] its left inverse; a str that
+   equals a field name is not an atom in the core model but [PKey f] (harness/universe.py: Registry.kind_of):
+   [key_text f] is the text of field name f (None: f is not a field name), [key_of] its inverse *)
+Record coding := {
+  enc : val -> nat;
+  dec : nat -> option val;
+  key_text : nat -> option string;
+  key_of : string -> option nat
+}.
+Definition coding_law (C : coding) : Prop :=
+  (forall v, dec C (enc C v) = Some v) /\
+  (forall f s, key_text C f = Some s -> key_of C s = Some f) /\
+  (forall s f, key_of C s = Some f -> key_text C f = Some s).
+
 Section Bridge.
-Variable enc : val -> nat.                    (* the atom standing for a scalar value *)
-Variable dec : nat -> option val.
+Variable C : coding.
 Variable kind_of : nat -> option leafkind.    (* the harness' numbering of leaf types *)
 Variable rts : nat -> Runtime.                (* the interpreter as seen by the routines bound to leaf type s *)
 Variable ev : tok -> res val.
 Variable rt0 : Runtime.                       (* ... by NoneTypeUnmarshaller (only its UTF-8 decoder is asked) *)
 Variable base : Core.runtime.                 (* everything that is not a leaf routine *)
 
-Definition coding_law : Prop := forall v, dec (enc v) = Some v.
-
 (* canonical decoding: an atom stands for x only if it is THE atom of x *)
 Definition cdec (a : nat) : option val :=
-  match dec a with Some x => if Nat.eqb (enc x) a then Some x else None | None => None end.
+  match dec C a with Some x => if Nat.eqb (enc C x) a then Some x else None | None => None end.
+
+(* the core value standing for a scalar *)
+Definition encp (x : val) : Core.pv :=
+  match x with
+  | VText CStr s => match key_of C s with Some f => Core.PKey f | None => Core.PAtom (enc C x) end
+  | _ => Core.PAtom (enc C x) end.
+(* ... and back; an atom for a str that is a field name is not canonical (that str is the PKey) *)
+Definition decp (p : Core.pv) : option val :=
+  match p with
+  | Core.PAtom a =>
+      match cdec a with
+      | Some (VText CStr s) => match key_of C s with Some _ => None | None => Some (VText CStr s) end
+      | o => o end
+  | Core.PKey f => match key_text C f with Some s => Some (VText CStr s) | None => None end
+  | _ => None end.
 
 Definition lift (r : res val) : Core.res Core.pv :=
   match r with
-  | Ok x => Core.Ok (Core.PAtom (enc x))
+  | Ok x => Core.Ok (encp x)
   | Raise e => Core.Raise (exn_map e)
   | Unmodelled => Core.Unmodelled end.
 
-(* containers, field-name strings and atoms outside the coding are outside the scalar model *)
+(* containers and values outside the coding are outside the scalar model *)
 Definition run_leaf (f : val -> res val) (p : Core.pv) : Core.res Core.pv :=
-  match p with
-  | Core.PAtom a => match cdec a with Some x => lift (f x) | None => Core.Unmodelled end
-  | _ => Core.Unmodelled end.
+  match decp p with Some x => lift (f x) | None => Core.Unmodelled end.
 
 Definition b_leaf_u (s : nat) (p : Core.pv) : Core.res Core.pv :=
   match kind_of s with Some k => run_leaf (unm_of (rts s) k) p | None => Core.Unmodelled end.
 Definition b_leaf_m (s : nat) (p : Core.pv) : Core.res Core.pv :=
   match kind_of s with Some k => run_leaf (mar_of (rts s) ev k) p | None => Core.Unmodelled end.
-Definition b_none : Core.pv := Core.PAtom (enc VNone).
-(* an object that is not in the coding is not None (None is): decode hands it back or raises, then ValueError *)
+Definition b_none : Core.pv := Core.PAtom (enc C VNone).
+(* a container, or an object that is not in the coding, is not None (None is in the coding): decode hands it back or
+   raises, then ValueError *)
 Definition b_none_u (p : Core.pv) : Core.res Core.pv :=
-  match p with
-  | Core.PAtom a => match cdec a with Some x => lift (unm_none rt0 x) | None => Core.Raise Core.EValue end
-  | _ => Core.Raise Core.EValue end.
+  match decp p with Some x => lift (unm_none rt0 x) | None => Core.Raise Core.EValue end.
 
 Definition bridged : Core.runtime := {|
   Core.leaf_u := b_leaf_u;
@@ -215,28 +240,32 @@ Definition bridged : Core.runtime := {|
   Core.none := b_none;
   Core.suppressed := Core.suppressed base |}.
 
-Definition on_atom (f : val -> bool) (p : Core.pv) : bool :=
-  match p with Core.PAtom a => match cdec a with Some x => f x | None => false end | _ => false end.
+Definition on_scalar (f : val -> bool) (p : Core.pv) : bool :=
+  match decp p with Some x => f x | None => false end.
 
-(* leaf validity: atom v decodes to a value of kind s inside its range *)
+(* leaf validity: v stands for a value of kind s inside its range *)
 Definition lv (strict : bool) (s : nat) (v : Core.pv) : bool :=
-  match kind_of s with Some k => on_atom (in_kind (rts s) ev strict k) v | None => false end.
+  match kind_of s with Some k => on_scalar (in_kind (rts s) ev strict k) v | None => false end.
 (* v is of the class of leaf type s (C03's leaf_ok) *)
 Definition leaf_class_ok (s : nat) (v : Core.pv) : bool :=
-  match kind_of s with Some k => on_atom (shape k) v | None => false end.
+  match kind_of s with Some k => on_scalar (shape k) v | None => false end.
 (* C06's parameters *)
-Definition prim_atom (a : nat) : bool := match cdec a with Some x => prim_val x | None => false end.
+Definition prim_atom (a : nat) : bool := on_scalar prim_val (Core.PAtom a).
 Definition robust_leaf (s : nat) : bool := match kind_of s with Some k => robust_kind k | None => false end.
 Definition no_literal (s : nat) : bool := false.
 Definition no_member (s : nat) (v : Core.pv) : bool := false.
 
-(* equality of atoms up to the fold of the values they stand for *)
+(* equality up to the fold of the values they stand for *)
 Definition sim_pv (v v' : Core.pv) : Prop :=
-  match v, v' with
-  | Core.PAtom a, Core.PAtom b => exists x y, cdec a = Some x /\ cdec b = Some y /\ sim_val x y
-  | _, _ => False end.
+  exists x y, decp v = Some x /\ decp v' = Some y /\ sim_val x y.
 
 End Bridge.
+
+(* RoundLaws with exact equality on the LAX range (folds 0 and 1): the full statement, refuted in Props/LeafBridge.v *)
+Definition round_full_stmt : Prop :=
+  forall C kind_of rts ev rt0 base, coding_law C ->
+  (forall s, RuntimeLaws (rts s)) -> (forall s, FoldLaws (rts s)) ->
+  CoreC01.RoundLaws (bridged C kind_of rts ev rt0 base) (lv C kind_of rts ev false).
 
 (* ---------------------------------------------------------------- 4. a concrete coding *)
 (* val -> tokens (nat) -> bits -> positive -> nat.  Never evaluated: it only shows [coding_law] is satisfiable. *)
@@ -328,6 +357,12 @@ Fixpoint bits_of_pos (p : positive) : list bool :=
 
 Definition std_enc (v : val) : nat := Pos.to_nat (pos_of_bits (bits_of_tokens (tokens_of v))).
 Definition std_dec (a : nat) : option val := val_of_tokens (tokens_of_bits 0 (bits_of_pos (Pos.of_nat a))).
+(* field name 0 is "kids" (so the str "kids" is PKey 0, never an atom); no other field names *)
+Definition with_keys (e : val -> nat) (d : nat -> option val) : coding := {|
+  enc := e; dec := d;
+  key_text := fun f => match f with 0 => Some "kids"%string | _ => None end;
+  key_of := fun s => if String.eqb s "kids" then Some 0 else None |}.
+Definition std_coding : coding := with_keys std_enc std_dec.
 
 (* ---------------------------------------------------------------- 5. witness runtimes and the example instance *)
 (* the same interpreter seen from another enum class *)
@@ -360,10 +395,10 @@ Definition bytes_enum_of_val (v : val) : res tok :=
 Definition bytes_enum_value (m : tok) : res val :=
   if String.eqb m "E.c"%string then Ok (VText CBytes "yy"%string) else Raise EOther.
 
-(* the example instance: leaf ids 0 int, 1 date, 2 timedelta, 3 Decimal, 4 enum (str values), 5 datetime *)
+(* the example instance: leaf ids 0 int, 1 date, 2 timedelta, 3 Decimal, 4 enum (str values), 5 datetime, 6 str *)
 Definition ex_kinds (s : nat) : option leafkind :=
   match s with 0 => Some LInt | 1 => Some LDate | 2 => Some LTimeDelta | 3 => Some LDec | 4 => Some LEnum
-             | 5 => Some LDateTime | _ => None end.
+             | 5 => Some LDateTime | 6 => Some LStr | _ => None end.
 Definition ex_ev (m : tok) : res val := Ok (VText CStr m).            (* the toy enum: the member's value is its token *)
 Definition ex_base : Core.runtime := {|
   Core.leaf_u := fun _ _ => Core.Unmodelled; Core.leaf_m := fun _ _ => Core.Unmodelled;
@@ -376,13 +411,15 @@ Definition ex_dt : dtf :=
   {| dy := 2020; dmo := 1; dd := 1; dh := 17; dmi := 0; ds := 0; dus := 999999; doff := Some 19800%Z; dfold := 0 |}.
 Definition ex_dt_fold1 : dtf :=
   {| dy := 2020; dmo := 1; dd := 1; dh := 17; dmi := 0; ds := 0; dus := 999999; doff := Some 19800%Z; dfold := 1 |}.
-(* list[tuple[int, date, timedelta, Decimal, E, datetime]] *)
+(* list[tuple[int, date, timedelta, Decimal, E, datetime, str, str]] *)
 Definition ex_T : Core.ty :=
-  Core.TSeq Core.KList (Core.TTuple [Core.TLeaf 0; Core.TLeaf 1; Core.TLeaf 2; Core.TLeaf 3; Core.TLeaf 4; Core.TLeaf 5]).
+  Core.TSeq Core.KList (Core.TTuple [Core.TLeaf 0; Core.TLeaf 1; Core.TLeaf 2; Core.TLeaf 3; Core.TLeaf 4; Core.TLeaf 5;
+                                     Core.TLeaf 6; Core.TLeaf 6]).
 Definition ex_vals : list val :=
-  [VInt (-12345); VDate 2024 2 29; VTimeDelta (-8) 3661 500; VDec "1.50"%string; VEnum "one"%string; VDateTime ex_dt].
+  [VInt (-12345); VDate 2024 2 29; VTimeDelta (-8) 3661 500; VDec "1.50"%string; VEnum "one"%string; VDateTime ex_dt;
+   VText CStr "kids"%string; VText CStr "null"%string].
 Definition ex_wire : list val :=
   [VInt (-12345); VText CStr "2024-02-29"%string; VText CStr "-P7DT22H58M58.999500S"%string; VText CStr "1.50"%string; VText CStr "one"%string;
-   VText CStr "2020-01-01T17:00:00.999999+05:30"%string].
-Definition ex_pv (enc : val -> nat) (k : Core.seqkind) (l : list val) : Core.pv :=
-  Core.PSeq Core.KList [Core.PSeq k (map (fun x => Core.PAtom (enc x)) l)].
+   VText CStr "2020-01-01T17:00:00.999999+05:30"%string; VText CStr "kids"%string; VText CStr "null"%string].
+Definition ex_pv (C : coding) (k : Core.seqkind) (l : list val) : Core.pv :=
+  Core.PSeq Core.KList [Core.PSeq k (map (encp C) l)].
